@@ -161,7 +161,9 @@ func (tr TxRequest) commitTo(db xkv.Atomic) (err error) {
 	defer func() {
 		tr.Operations = nil
 		if err != nil {
-			err = b.Close()
+			// Keep the failure that aborts the transaction: replacing it by the result
+			// of Close reports the request as persisted although nothing was written.
+			err = errors.Combine(err, b.Close())
 		} else if _err := b.Commit(tr.Context); _err != nil {
 			err = _err
 		}
